@@ -218,11 +218,11 @@ func H_C18_yieldBlock() {
 	set := hxSet(nil,
 		"/lib.jet", `{{ block b() }}{{ count() }}[{{ . }}]{{ end }}`,
 		"/m.jet", `{{ import "/lib.jet" }}<{{ y() }}|{{ . }}>{{ include "/inc.jet" }}{{ range i, e := one }}<{{ y() }}|{{ . }}>{{ end }}`,
-		"/inc.jet", `{{ if true }}{{ z := 1 }}<{{ y() }}|{{ . }}>{{ end }}`,
+		"/inc.jet", `{{ if true }}{{ z := 1 }}<{{ y() }}|{{ . }}>{{ end }}{{ isset(z) }}{{ range i, e := one }}{{ w := 2 }}{{ y() }}{{ end }}{{ isset(w) }}`,
 		"/s.jet", `{{ import "/lib.jet" }}<{{ yield b() ctxv }}|{{ . }}>{{ include "/sinc.jet" }}{{ range i, e := one }}<{{ yield b() ctxv }}|{{ . }}>{{ end }}`,
-		"/sinc.jet", `{{ if true }}{{ z := 1 }}<{{ yield b() ctxv }}|{{ . }}>{{ end }}`,
+		"/sinc.jet", `{{ if true }}{{ z := 1 }}<{{ yield b() ctxv }}|{{ . }}>{{ end }}{{ isset(z) }}{{ range i, e := one }}{{ w := 2 }}{{ yield b() ctxv }}{{ end }}{{ isset(w) }}`,
 		"/s0.jet", `{{ import "/lib.jet" }}<{{ yield b() }}|{{ . }}>{{ include "/s0inc.jet" }}{{ range i, e := one }}<{{ yield b() }}|{{ . }}>{{ end }}`,
-		"/s0inc.jet", `{{ if true }}{{ z := 1 }}<{{ yield b() }}|{{ . }}>{{ end }}`,
+		"/s0inc.jet", `{{ if true }}{{ z := 1 }}<{{ yield b() }}|{{ . }}>{{ end }}{{ isset(z) }}{{ range i, e := one }}{{ w := 2 }}{{ yield b() }}{{ end }}{{ isset(w) }}`,
 	)
 	mk := func() VarMap {
 		vars := make(VarMap)
@@ -247,7 +247,7 @@ func H_C18_yieldBlock() {
 	}
 	vfReach("rendered")
 	vfAssert(err == nil, "renders")
-	vfAssert(log.String() == "body,body,body", "the block body runs exactly once per call")
+	vfAssert(log.String() == "body,body,body,body", "the block body runs exactly once per call")
 	log.events = nil
 	twin := "/s0.jet"
 	if withCtx {
@@ -271,6 +271,12 @@ func H_C18_nilVarMap() {
 	vfReach("rendered")
 	vfAssert(err == nil, "no failure with a nil VarMap")
 	vfAssert(out == "[new]", "the binding is visible afterwards")
+	// ... and ends with the execution: the next one (again without a VarMap) starts empty
+	set2 := hxSet(nil, "/p.jet", `[{{ isset(x) ? x : "-" }}]`)
+	out2, err2 := hxExec(set2, "/p.jet", nil, nil)
+	out3, err3 := hxExec(set, "/m.jet", nil, nil)
+	vfAssert(err2 == nil && out2 == "[-]", "what the API declared in one execution is not visible in the next")
+	vfAssert(err3 == nil && out3 == "[new]", "the same execution again renders the same")
 }
 
 // c18IsSetPattern reports, for a jet.Func, which argument positions IsSet says are set
